@@ -154,3 +154,36 @@ Definition demo_local_sem (id : Z) (args : list (option val)) : option val :=
   | _ => None
   end.
 Definition demo_local_trace : list ev := [EvSer (VI 0); EvSer (VI 2); EvSer (VI 104)].
+
+Definition nb : ident := [98].
+Definition nlo : ident := [108; 111].
+Definition nhi : ident := [104; 105].
+Definition nc : ident := [99].
+Definition nd : ident := [100].
+
+(* b = 40
+   b = b + 15
+   lo, hi = b - 5, b + 5       -- tuple DECLARATION of new globals reading a re-assigned variable:
+   c, d = 1, 2                    run-time assignments in setup() (constants go to the initialisers)
+   mon.write(lo)
+   mon.write(hi + c + d)                                                                       *)
+Definition demo_tuple : pprog :=
+  {| p_pre := [ PAssign nb (mk 1 TyInt true []);
+                PAssign nb (mk 2 TyInt false [nb]);
+                PTuple [nlo; nhi] [mk 3 TyInt false [nb]; mk 4 TyInt false [nb]];
+                PTuple [nc; nd] [mk 5 TyInt true []; mk 6 TyInt true []];
+                PWrite (mk 7 TyInt false [nlo]);
+                PWrite (mk 8 TyInt false [nhi; nc; nd]) ];
+     p_main := None |}.
+Definition demo_tuple_sem (id : Z) (args : list (option val)) : option val :=
+  match id with
+  | 1 => Some (VI 40)
+  | 2 => match args with [Some (VI a)] => Some (VI (a + 15)) | _ => None end
+  | 3 => match args with [Some (VI a)] => Some (VI (a - 5)) | _ => None end
+  | 4 => match args with [Some (VI a)] => Some (VI (a + 5)) | _ => None end
+  | 5 => Some (VI 1) | 6 => Some (VI 2)
+  | 7 => match args with [Some (VI a)] => Some (VI a) | _ => None end
+  | 8 => match args with [Some (VI a); Some (VI b); Some (VI c)] => Some (VI (a + b + c)) | _ => None end
+  | _ => None
+  end.
+Definition demo_tuple_trace : list ev := [EvSer (VI 50); EvSer (VI 63)].
